@@ -381,11 +381,10 @@ func initHTTPEnv(e *env) (*httpEnv, error) {
 			route(v2.RouterMatch{Headers: []v2.HeaderMatcher{{Name: "x-relay", Value: ".*", Regex: true}}}),
 		}}}}
 	px := &v2.Proxy{DownstreamProtocol: "Http1", UpstreamProtocol: "Http1", RouterConfigName: "relay-http-router"}
-	addr := freeAddr()
-	ta, _ := net.ResolveTCPAddr("tcp", addr)
+	il, ta, addr := boundListener()
 	lc := &v2.Listener{ListenerConfig: v2.ListenerConfig{Name: "relay-http", AddrConfig: addr, BindToPort: true, Network: "tcp",
 		FilterChains: []v2.FilterChain{{FilterChainConfig: v2.FilterChainConfig{Filters: []v2.Filter{
-			{Type: "proxy", Config: toMap(px)}}}}}}, Addr: ta}
+			{Type: "proxy", Config: toMap(px)}}}}}}, Addr: ta, InheritListener: il}
 	if err := router.GetRoutersMangerInstance().AddOrUpdateRouters(&rc); err != nil {
 		return nil, err
 	}
